@@ -19,7 +19,8 @@
 # THE SOFTWARE.
 import re
 
-from .adapter import GaugeAdapter, OutputNotParseable
+from .adapter import GaugeAdapter, OutputNotParseable,\
+    ResultsIndicatedAsInvalid
 
 from ..model.data_point  import DataPoint
 from ..model.measurement import Measurement
@@ -35,6 +36,10 @@ class SavinaLogAdapter(GaugeAdapter):
         data_points = []
 
         for line in data.split("\n"):
+            if self.check_for_error(line):
+                raise ResultsIndicatedAsInvalid(
+                    "Output of bench program indicated error.")
+
             match = self.re_log_line.match(line)
             if match:
                 time = float(match.group(2))
